@@ -22,6 +22,8 @@ std::string genGo(vf::Rng& r, const pg::GenPos& gp, long long costNs, const GoOp
 void genRelease(vf::Rng& r, vf::Scenario& sc, long long costNs, long maxNodes);
 void genGap(vf::Rng& r, vf::Scenario& sc, long long costNs);
 std::string genSetOption(vf::Rng& r, bool wild);
+/** Options/isready arriving while a self-terminated ponder/infinite search waits for its release. */
+void genWithheldWindow(vf::Rng& r, vf::Scenario& sc, pg::GenPos& gp, long long cost);
 
 } // namespace gu
 #endif
